@@ -9,6 +9,12 @@
 // are driven with generated histories.  The reference model (model.Store with cap and size limit)
 // says which messages leave and why.  Verdicts are formed at logical quiescence of the
 // asynchronous dispatch.
+//
+// Streams: seq (one sequential client, model-based), conc (clients on disjoint mailboxes,
+// model-based), sizerace (sizerace.go: shared mailboxes of a size-limited memory store, conservation
+// oracle) and boxrace (boxrace.go, added after seeded change C16-8: many goroutines on the SAME
+// mailbox of either back end - same-message removals, removals against deliveries - conservation
+// oracle over events and final content).
 package c16
 
 import (
@@ -58,7 +64,9 @@ func init() {
 		Rule: "histories generated from (seed, index) over 12 store configurations (mem/file x cap x maxkb) x GOMAXPROCS{1,2,16} x hub history{1,3,10,30}: " +
 			"deliveries through StoreManager.Deliver (1-4 recipients, aliases of one mailbox, non-stored domain), bursts of 10-40 deliveries to one mailbox, " +
 			"removes (store/manager, existing and missing), purges, cap and size evictions, retention scans (period 1ns = everything, 1h = nothing); " +
-			"stream seq = one sequential client, stream conc = 2-4 client goroutines on disjoint mailboxes. One listener name on both after-event brokers " +
+			"stream seq = one sequential client, stream conc = 2-4 client goroutines on disjoint mailboxes, stream sizerace = 3-6 clients on the same mailboxes of a size-limited memory store, " +
+			"stream boxrace = 4-8 goroutines released together in rounds on the SAME one or two mailboxes of a manager + store (mem/file, cap 0/1/3/8, mem also maxkb 4, GOMAXPROCS 2/4/16): " +
+			"several removals of the same message, removals/purges/retention scans/MarkSeen against deliveries into the same mailbox, judged by conservation over events and final content. One listener name on both after-event brokers " +
 			"records entry/exit on a logical clock and does seeded work (0-3 Gosched, 0-100us spin/sleep). Non-trivial: a history with >=1 stored and >=1 " +
 			"deleted event, distinct by (configuration, GOMAXPROCS, set of departure reasons, event-count bucket, stream).",
 		Assumptions: []string{
@@ -67,7 +75,10 @@ func init() {
 			"quiescence is logical: no invocation in flight, goroutine count back at the pre-history baseline, completed-invocation count stable over 6 polls; a watchdog expiry is inconclusive",
 			"the relative order of events of different mailboxes / different messages is not judged, only per-mailbox stored order and stored-before-deleted per message",
 			"hub replay: must be an in-order, duplicate-free subsequence of the live messages, at most N long, and contain every live message among the last N stored (the hub keeps the last N stored events and blanks deleted ones; a hub that compacts would also pass)",
-			"concurrent clients own disjoint mailboxes and run without a global size limit, so each mailbox's history is sequential",
+			"stream conc: concurrent clients own disjoint mailboxes and run without a global size limit, so each mailbox's history is sequential",
+			"stream boxrace: the return values of racing RemoveMessage/PurgeMessages/MarkSeen calls are not judged, only counted; a Deliver that returns an error demands no stored event; " +
+				"stored-before-deleted is demanded only for a message that was listed at a round boundary (its Deliver had returned before the round in which it left began); " +
+				"a message that leaves while its Deliver call has not yet emitted the stored event has no defined emission order: an inversion there is counted, not judged",
 		},
 		MinObs: func(tier string) map[string]int64 {
 			m := map[string]int64{
@@ -77,6 +88,11 @@ func init() {
 				"bursts": 50, "deliveries_not_stored_domain": 20, "removes_of_missing": 20, "deliveries_refused_oversize": 10,
 				"gomaxprocs:1": 10, "gomaxprocs:2": 10, "gomaxprocs:16": 10,
 				"distinct_nontrivial": 100,
+				// stream boxrace (healthy quick run: 96 histories, about 10 000 / 22 000 overlapping pairs)
+				"boxrace_histories": 60, "boxrace:file": 30, "boxrace:mem": 30, "boxrace_capped": 30, "boxrace_uncapped": 15,
+				"boxrace_overlapping_same_message_removals": 1000, "boxrace_overlapping_delivery_and_removal": 2000,
+				"boxrace_stored_events": 5000, "boxrace_deleted_events": 5000, "boxrace_order_judged": 2000,
+				"boxrace_remove_ok": 500, "boxrace_remove_notexist": 1000, "boxrace_purges": 300,
 			}
 			for _, k := range configs {
 				m["config:"+k.String()] = 5
@@ -92,6 +108,7 @@ func run(c *fw.Ctx) {
 	c.Cases("seq", c.N(12*70, 12*700), func(i int, r *fw.Rand) { runHistory(c, i, r, false) })
 	c.Cases("conc", c.N(12*20, 12*200), func(i int, r *fw.Rand) { runHistory(c, i, r, true) })
 	c.Cases("sizerace", c.N(180, 3600), func(i int, r *fw.Rand) { runSizeRace(c, i, r) })
+	c.Cases("boxrace", c.N(96, 1440), func(i int, r *fw.Rand) { runBoxRace(c, i, r) })
 }
 
 // mrec is the model's record of one delivered message.
